@@ -204,7 +204,7 @@ def check(ctx):
     p_b, scn_b = ctx.tlc_gen("Gen_" + MODULE, "GenB_MockExchange.cfg", "behaviours.ndjson", simulate=(nb, 20), timeout=900)
     ctx.sample({"kind": "TLC transition scenario", "scenario": scn_t[len(scn_t) // 3]})
     ctx.sample({"kind": "TLC simulated behaviour", "scenario": scn_b[0]})
-    steps = 3000 if ctx.quick else 60000
+    steps = 3000 if ctx.quick else 40000
     for mode in ("direct", "run"):
         parts = []
         for label, scn in (("transitions", p_t), ("behaviours", p_b)):
